@@ -15,6 +15,22 @@ pub const REPRS: [&str; 5] = [
     "AdjacencyListWeighted",
 ];
 
+thread_local! {
+    static ROUTE_SALT: std::cell::Cell<u64> = const { std::cell::Cell::new(0) };
+}
+
+/// Set once per case by the harness (a function of seed and case index): the
+/// construction route of a model is then a function of (case, model), the same
+/// every time the case is replayed and for every rebuild inside the case.
+pub fn set_route_salt(x: u64) {
+    ROUTE_SALT.with(|c| c.set(x));
+}
+
+fn route(m: &Model, k: u64) -> u64 {
+    let salt = ROUTE_SALT.with(|c| c.get());
+    crate::rng::mix(salt ^ (m.size() as u64).rotate_left(32) ^ m.n() as u64) % k
+}
+
 pub trait Unweighted:
     Sized
     + Clone
@@ -37,7 +53,7 @@ pub trait Unweighted:
     /// mostly `empty(n)` + `add_arc` in ascending order, sometimes `add_arc`
     /// in a scrambled order, sometimes `From<iterator>` (`build_alt`).
     fn build(m: &Model) -> Self {
-        match (m.size() + 2 * m.n()) % 5 {
+        match route(m, 5) {
             3 => Self::build_alt(m),
             4 => {
                 let mut d = Self::empty(m.n());
@@ -66,7 +82,7 @@ pub trait Unweighted:
 /// descending, or scrambled (From<iterator of arcs> must not care).
 pub fn arcs_in_some_order(m: &Model) -> Vec<(usize, usize)> {
     let mut a = m.arc_list();
-    match m.size() % 3 {
+    match route(m, 3) {
         0 => {}
         1 => a.reverse(),
         _ => a.sort_by_key(|&(u, v)| crate::rng::mix((u as u64) << 32 ^ v as u64 ^ m.size() as u64)),
@@ -125,8 +141,8 @@ impl Unweighted for EdgeList {
 pub fn build_map_any(m: &Model) -> AdjacencyMap {
     assert!(m.n() > 0);
     let mut d = AdjacencyMap::empty(1);
-    if m.size() % 2 == 1 {
-        // arcs first, in a model-dependent arrival order: every endpoint is
+    if route(m, 2) == 1 {
+        // arcs first, in a case- and model-dependent arrival order: every endpoint is
         // admitted by the add_arc that first mentions it (as a tail or as a
         // head); the vertices without arcs come last
         for (u, v) in arcs_in_some_order(m) {
@@ -162,7 +178,7 @@ pub fn build_map_any(m: &Model) -> AdjacencyMap {
 fn build_weighted<W: Copy>(m: &Model, conv: impl Fn(i64) -> W, other: W) -> AdjacencyListWeighted<W> {
     use graaf::{AddArcWeighted, Empty};
     assert!(m.is_contig() && m.n() > 0);
-    match (m.size() + 3 * m.n()) % 5 {
+    match route(m, 5) {
         3 => {
             let rows: Vec<BTreeMap<usize, W>> = (0..m.n()).map(|u| m.out_w(u).into_iter().map(|(v, w)| (v, conv(w))).collect()).collect();
             AdjacencyListWeighted::from(rows)
